@@ -310,6 +310,17 @@ def run_library(spec, acc, api):
     stamps = [{'t': 1700000000000 + 86400000 * i, 'c': i % 3} for i in range(spec['n'] // 2 if spec['n'] < 8000 else 6500)]
     for fn in ('average', 'stddev', 'sum'):
         one_case('dataAggregate', [copy.deepcopy(stamps), {'categories': ['c'], 'measures': [{'field': 't', 'function': fn}]}], acc, api)
+    # large integers (still below 1e15) with few digits: value * 10 ** digits passes 2**53
+    rb = random.Random(base + 5)
+    for _ in range(60):
+        v = rb.choice([1, -1]) * rb.randint(10 ** 11, 10 ** 15 - 1)
+        d = rb.randint(0, 4)
+        one_case('mathRound', [v, d], acc, api)
+        one_case('numberToFixed', [v, d], acc, api)
+        one_case('numberToFixed', [v, d, True], acc, api)
+    for v, d in ((983895159459682, 2), (95, 20), (5, 17), (123456789012345, 1), (999999999999999, 3)):
+        one_case('mathRound', [v, d], acc, api)
+        one_case('numberToFixed', [v, d], acc, api)
     for arr in ([3, 1, 2], [10, 9, 8, 7, 1], [2, 2, 1, 3, 0, -1], [5, 4]):
         one_case('arraySort', [list(arr), host_minus], acc, api)
         one_case('arrayIndexOf', [list(arr), host_half], acc, api)
@@ -342,6 +353,25 @@ def run_operators(acc, api):
                 acc.cover('operators', op)
                 if not all(r[0] == res[0][0] and (r[0] != 'ok' or eq12(r[1], res[0][1])) for r in res):
                     acc.violation('operator-int-float-differs', f'{a} {op} {b}: int/int, float/float, int/float, float/int -> {res!r:.300}', {'op': op, 'a': a, 'b': b})
+    # an integral LEFT operand in both spellings against fractional right operands (negative base ** fraction, % and / by fractions)
+    for op in OPS:
+        e = {'binary': {'op': op, 'left': {'variable': 'aa'}, 'right': {'variable': 'bb'}}}
+        for a in grid:
+            for b in (0.5, -0.5, 1.5, 0.25, -2.5, 1e-3):
+                for order in ('ab', 'ba'):
+                    res = []
+                    for fa in (int, float):
+                        g = {'aa': fa(a), 'bb': b} if order == 'ab' else {'aa': b, 'bb': fa(a)}
+                        try:
+                            res.append(('ok', evaluate_expression(e, {'globals': g}, None, False)))
+                        except Exception as exc:  # pylint: disable=broad-except
+                            res.append(('exc', type(exc).__name__))
+                    acc.case((op, a, b, order), True)
+                    for r in res:
+                        if r[0] == 'ok' and not refval.is_value(r[1]):
+                            acc.violation('operator-result-not-a-value', f'{a} {op} {b} ({order}): {r[1]!r}', {'op': op, 'a': a, 'b': b})
+                    if not (res[0][0] == res[1][0] and (res[0][0] != 'ok' or eq12(res[0][1], res[1][1]))):
+                        acc.violation('operator-int-float-differs', f'{a} {op} {b} ({order}): int spelling {res[0]!r:.120}, float spelling {res[1]!r:.120}', {'op': op, 'a': a, 'b': b})
     for op in '!-':
         for a in grid:
             e = {'unary': {'op': op, 'expr': {'variable': 'aa'}}}
